@@ -15,6 +15,9 @@ def nontrivial(engine, opline):
     if engine == 'feemarket':
         # non-trivial: positive base fee and gas consumption different from 0
         return len(t) == 5 and t[1] != '0' and t[3] != '0'
+    if engine == 'block':
+        # non-trivial: a transaction line that was admitted (not a begin/end line, not refused at admission)
+        return bool(t) and t[0] in ('eth', 'cos')
     if engine == 'statedb':
         return bool(t) and not t[0].startswith('w.') and t[0] != 'new'
     return True
@@ -29,7 +32,46 @@ def divergence_matches(finding, engine, d):
     return bool(re.search(sig.get('op_regex', '.*'), d['op'])) and bool(re.search(sig.get('impl_regex', '.*'), d['impl']))
 
 
+BLOCK_RULE = 'random multi-tx blocks (1-10 txs; 20 tx kinds: transfers, logging/storing/reverting/gas-burning/self-destructing contracts, creations, consensus errors, handler panics, bad nonce/price/chain/signature, Cosmos sends; heavy blocks that exhaust block gas) through the real FinalizeBlock; per tx the model predicts class, gas, indices, cumulative gas, price and all balance/supply deltas; non-trivial = a transaction line; distinct by op-line hash'
+BLOCK_ASSUME = ['the EVM interpreter enters only as an execution summary (vmErr, gas before refund, refund counter via the verif-tag hook, log count, panicked) read from the implementation',
+                'signature validity is symbolic: the harness states whether the bytes recover to From under this chain id',
+                'BaseApp.runTx cache/recover/block-gas semantics are transcribed, not verified (exercised by every outcome class)']
+
 PROPS = {
+    'C04': dict(
+        lean_modules=['Model.World', 'Model.StateDB', 'Model.Block', 'Proofs.World', 'Properties.C04', 'Properties.C05', 'Facts.Block'],
+        facts=['*'],
+        theorems=['C04_transfer_conserves', 'C04_addBalance', 'C04_subBalance', 'C04_refund_conserves', 'C04_evmModule_zero',
+                  'C04_supply', 'C04_sender_collector', 'C05_collector_gain', 'mintTo_effect', 'burnFrom_effect', 'sendCoins_bal',
+                  'fact_balance_sites', 'fact_refund_mints', 'fact_refund_burnt_from_collector'],
+        engines=[dict(name='block', test='TestEngineBlock', quick=500, thorough=6000, thorough_seeds=3),
+                 dict(name='statedb', test='TestEngineStatedb', quick=3000, thorough=60000, thorough_seeds=2)],
+        rule=BLOCK_RULE, assumptions=BLOCK_ASSUME + ['bank keeps supply = sum of balances (x/bank invariant, trusted); per-tx supply and balance deltas are reconstructed from the bank events of each ExecTxResult'],
+    ),
+    'C05': dict(
+        lean_modules=['Model.FeeMarket', 'Model.Block', 'Properties.C05', 'Facts.Block'],
+        facts=['*'],
+        theorems=['C05_charge', 'C05_charge_self', 'C05_rejected_free', 'C05_refund_cap', 'C05_bounds', 'C05_result_eq_receipt',
+                  'C05_collector_gain', 'C05_one_price', 'stepEth_cases', 'fact_refund_quotient', 'fact_min_gas', 'fact_gas_meter_reset'],
+        engines=[dict(name='block', test='TestEngineBlock', quick=500, thorough=6000, thorough_seeds=3)],
+        rule=BLOCK_RULE, assumptions=BLOCK_ASSUME + ['C05_bounds lower bound assumes intrinsic + refundCounter <= gas used before refund (geth gas table: every refunded unit was paid for); E-block checks intrinsic <= gasUsed on every committed tx'],
+    ),
+    'C06': dict(
+        lean_modules=['Model.Block', 'Properties.C05', 'Properties.C06', 'Facts.Block'],
+        facts=['*'],
+        theorems=['C06_authorised', 'C06_seq_plus_one', 'C06_seq_unchanged', 'C06_seq_monotone', 'C06_no_replay', 'C06_seq_counts',
+                  'fact_nonce_flag_used', 'fact_ante_order'],
+        engines=[dict(name='block', test='TestEngineBlock', quick=500, thorough=6000, thorough_seeds=3)],
+        rule=BLOCK_RULE, assumptions=BLOCK_ASSUME + ['Cosmos-lane signature verification is the SDK decorator (trusted); only its sequence effect is modelled'],
+    ),
+    'C13': dict(
+        lean_modules=['Model.Block', 'Properties.C05', 'Properties.C06', 'Properties.C13', 'Facts.Block'],
+        facts=['*'],
+        theorems=['C13_txIndex', 'C13_receipt_index', 'C13_logIndex', 'C13_cumulativeGas', 'C13_status', 'C13_contract',
+                  'C13_inv_block', 'C13_endBlock_total', 'inv_step', 'fact_log_index_restored'],
+        engines=[dict(name='block', test='TestEngineBlock', quick=500, thorough=6000, thorough_seeds=3)],
+        rule=BLOCK_RULE, assumptions=BLOCK_ASSUME + ['bloom filters are not modelled: receipt bloom = bloom(own logs) and block bloom = union are checked by the engine on the real receipts (tested, not proved)'],
+    ),
     'C03': dict(
         lean_modules=['Model.CDbGeneric', 'Model.World', 'Model.StateDB', 'Proofs.CDb', 'Properties.C03'],
         facts=['*'],
